@@ -32,3 +32,9 @@ W void t_convolve(ST* t, uint32_t dim, const double* knots, size_t n){ t->convol
 W int t_searchcenters(const ST* t, const double* x, int* centers){ return t->searchcenters(x, centers); }
 W double t_eval(const ST* t, const double* x, const int* centers, int derivatives){ return t->ndsplineeval(x, centers, derivatives); }
 W void t_gradient(const ST* t, const double* x, const int* centers, double* out){ t->ndsplineeval_gradient(x, centers, out); }
+W int t_read_fits(ST* t, const char* path){ return t->read_fits(path); }
+W void t_move_construct(ST* dst, ST* src){ new (dst) ST(std::move(*src)); }
+W void t_move_assign(ST* dst, ST* src){ *dst = std::move(*src); }
+W int t_remove_key(ST* t, const char* key){ return t->remove_key(key); }
+W int t_write_key_str(ST* t, const char* key, const char* value){ return t->write_key(key, value); }
+W int t_ndim(const ST* t){ return t->get_ndim(); }
